@@ -1,4 +1,18 @@
-/- dsmodel_kll: model driver stub (filled in when the family is built). -/
-def main (_args : List String) : IO UInt32 := do
-  IO.eprintln "dsmodel_kll: not built yet"
-  return 2
+/- dsmodel_kll: `kll` = update/merge/query histories and exhaustive coin trees of the KLL model. -/
+import DSModel.Kll.Driver
+import DSModel.DriverLoop
+import DSGen.Kll
+import DSModel.Kll.Gen
+open DS
+
+def kllParams : Kll.Params := Kll.genParams
+def kllErr : Kll.ErrConsts := Kll.genErr
+
+def constsLine : String :=
+  s!"CONSTS {DSGen.kll_DEFAULT_K} {DSGen.kll_DEFAULT_M} {DSGen.kll_MIN_K} {DSGen.kll_MAX_K} P3" ++
+    String.join (DSGen.kll_powers_of_three.map (fun x => s!" {x}"))
+
+def main (args : List String) : IO UInt32 := do
+  match args with
+  | ["kll"] => runDriver ({} : Kll.St) (Kll.stepLine kllParams kllErr constsLine)
+  | _ => IO.eprintln "usage: dsmodel_kll kll"; return 2
